@@ -52,9 +52,10 @@ _HUB_ASSUME = ["Go runtime semantics are modelled, not verified: a select picks 
 PROPS = {
     "C01": {"streams": [{"name": "stack", "quick": 700, "thorough": 20000, "thorough_seeds": 3, "stateful": True, "seq_start": "stack-new"},
                         _FRAG_STREAM, {"name": "mux", "quick": 3000, "thorough": 100000, "thorough_seeds": 2}, _SRC_STREAM],
-            "oracles": ["swarm", "frag", "mux"], "oracle_n": {"quick": 32, "thorough": 640},
-            "oracle_n_by": {"mux": {"quick": 4000, "thorough": 200000}, "frag": {"quick": 3000, "thorough": 100000}},
-            "rule": "the multiplexer functions are handed the caller's vector as 1-3 segments with spare capacity and must leave it as it was; stack stream: random nestings of 0-3 multiplexer channels (all five kinds) around at most one fragmenting swarm over an "
+            "oracles": ["swarm", "frag", "mux", "secure"], "oracle_n": {"quick": 32, "thorough": 640},
+            "oracle_n_by": {"mux": {"quick": 4000, "thorough": 200000}, "frag": {"quick": 3000, "thorough": 100000}, "secure": {"quick": 12, "thorough": 300}},
+            "rule": "secure oracle (shared with C04; its misdelivery verdicts speak for C01 too: a payload told to identity C at B's address is never handed to B, on P2PKE, QUIC and SSH, "
+                    "with and without an earlier channel to B, on the first attempt and on repeats); the multiplexer functions are handed the caller's vector as 1-3 segments with spare capacity and must leave it as it was; stack stream: random nestings of 0-3 multiplexer channels (all five kinds) around at most one fragmenting swarm over an "
                     "in-memory base of MTU 20-1200 whose datagrams the harness captures and releases; payloads at MTU-1/MTU/MTU+1, base and "
                     "2*base; compared: MTU(), the exact set of base datagrams of each Tell, and what the receiving stack delivers; "
                     "swarm oracle: 14 stack templates (in-memory, fragmenting, string/uint16 multiplexed, multi-transport, P2PKE, "
@@ -115,8 +116,9 @@ PROPS = {
                         {"name": "dht", "quick": 1500, "thorough": 50000, "thorough_seeds": 2},
                         {"name": "ke", "quick": 12000, "thorough": 200000, "thorough_seeds": 2, "stateful": True, "seq_start": "reset"},
                         {"name": "node", "quick": 8000, "thorough": 150000, "thorough_seeds": 2, "stateful": True, "seq_start": "n-new"}],
-            "oracles": ["mux", "frag", "key", "addr", "dht"],
+            "oracles": ["mux", "frag", "key", "addr", "dht", "swarm"],
             "oracle_n": {"quick": 1500, "thorough": 50000},
+            "oracle_n_by": {"swarm": {"quick": 16, "thorough": 320}},
             "rule": "every correspondence stream doubles as a crash detector: a panic in the implementation is the observation `fault`, which the "
                     "models never produce; malformed inputs are structured mutations of valid ones (every header field at 0/1/max/2^63, "
                     "lengths around every boundary, later packets contradicting earlier ones) plus raw random bytes; slices are passed with "
